@@ -242,7 +242,9 @@ func checkC13(c *Ctx) {
 				g := faults[r.Intn(len(faults))]
 				// keep them independent: different directory / file, same privilege class
 				if g.target != f.target && isPermFault(g.kind) == isPermFault(f.kind) && g.kind != "vanish" && g.kind != "replace-invalid" && f.kind != "vanish" && f.kind != "replace-invalid" {
-					isDir := func(k string) bool { return k == "missing" || k == "isfile" || k == "enotdir" || k == "noread" || k == "nosearch" }
+					isDir := func(k string) bool {
+						return k == "missing" || k == "isfile" || k == "enotdir" || k == "noread" || k == "nosearch"
+					}
 					if isDir(g.kind) == isDir(f.kind) {
 						second = &g
 					}
